@@ -7,6 +7,10 @@ BASE = json.load(open("/root/.vp/BASELINE.json"))["cmd"] if Path("/root/.vp/BASE
     "cd /repo && /venv/bin/python -m pytest -ra -q -p no:cacheprovider --timeout=900 --continue-on-collection-errors --junitxml=<file>"
 
 CHECKS = {
+ "C19": dict(cat="exploration", ref="§C19",
+    tech="schedule exploration with a harness-owned cooperative scheduler (yield points = traced lines touching shared state, installed with threading.settrace): exhaustive single-preemption enumeration for fixed program pairs + property-based (Hypothesis) generation of thread programs and multi-preemption schedules + a free-running stress run; oracle = differential against the sequential outcome on fresh instances",
+    text="Threads run generated programs over one shared XmlContext and shared parsers/serializers; the scheduler owns every interleaving decision at line granularity inside the anchored code. Every single preemption of 16 two-thread program pairs is explored, plus generated schedules with up to 4 preemptions for 2-4 threads; each operation's outcome must equal its sequential outcome. Exhaustive for single preemptions of the listed pairs at the chosen yield points, searched elsewhere.",
+    note="Interleavings are modelled at line granularity in context.py (shared-cache lines), models/elements.py, parsers/nodes/union.py and the parser entry points only; no source hooks are used. Recorded warnings are not compared (warnings.catch_warnings is process-global)."),
  "C14": dict(cat="exploration", ref="§C14",
     tech="bounded-exhaustive enumeration of operation histories + Hypothesis rule-based state machine (stateful testing); oracle = differential against freshly constructed context/parser/serializer instances after every step",
     text="All histories of length <= 2 (thorough: <= 3) over a pool of ~45 parse/serialize/encode/decode operations on colliding models, plus random histories of up to 30 steps from a rule-based state machine; after every step the outcome on the shared instances (value or exception type) must equal that of fresh instances. Exhaustive for the short histories, searched for the long ones.",
